@@ -28,6 +28,8 @@ class ScTrace:
     run: tuple | None = None                         # (start, returned, status, start_epoch_us, [wall_end_us])
     errors: list = field(default_factory=list)
     complete: bool = False
+    cdeltas: list = field(default_factory=list)      # (tid, id, op, key, value)  conflating-dictionary scenario
+    dvalues: list = field(default_factory=list)      # (evaltime_us, steady_ts, {key: value})
 
 
 def parse(path):
@@ -65,6 +67,11 @@ def parse(path):
                 cur.run = (int(tk[1]), int(tk[2]), tk[3], int(tk[4])) + ((int(tk[5]),) if len(tk) > 5 else ())
             elif k == "X":
                 cur.errors.append(" ".join(tk[1:]))
+            elif k == "CD":
+                cur.cdeltas.append((int(tk[1]), int(tk[2]), tk[3], int(tk[4]), int(tk[5])))
+            elif k == "DV":
+                n = int(tk[3])
+                cur.dvalues.append((int(tk[1]), int(tk[2]), {int(x.split("=")[0]): int(x.split("=")[1]) for x in tk[4:4 + n]}))
     return out
 
 
